@@ -51,6 +51,7 @@ def units(tier, seed):
     us.append({'kind': 'zero', 'tier': tier, 'seed': seed})
     us.append({'kind': 'cmp', 'tier': tier, 'seed': seed})
     us.append({'kind': 'select', 'tier': tier, 'seed': seed})
+    us.append({'kind': 'drivers', 'tier': tier, 'seed': seed})
     us.append({'kind': 'high', 'tier': tier, 'seed': seed})
     progs = programs(tier)
     for i in range(0, len(progs), CHUNK_P):
@@ -328,6 +329,61 @@ def run_select(u, out):
                                     break
 
 
+def run_drivers(u, out):
+    """"asking for more coefficients never changes the derivatives already obtained": the seeded forward drivers read their
+    answer from fixed low orders - a result that carries MORE coefficients (the same seed padded with further, vanishing or
+    non-vanishing, input coefficients) must give the same answer"""
+    def f(x):
+        return algopy.sin(x[0] * x[1]) + x[2] * x[0] * x[0] + algopy.exp(x[1] - x[2])
+
+    def F(x):
+        y = algopy.zeros(2, dtype=x)
+        y[0] = f(x)
+        y[1] = x[0] * x[1] * x[2]
+        return y
+    x0 = np.array([0.5, -1.25, 0.75])
+    v = np.array([1.0, -0.5, 2.0])
+    N = 3
+    seeds = [('jacobian', UTPM.init_jacobian(x0), lambda y: UTPM.extract_jacobian(y), F),
+             ('jacobian (scalar)', UTPM.init_jacobian(x0), lambda y: UTPM.extract_jacobian(y), f),
+             ('jac_vec', UTPM.init_jac_vec(x0, v), lambda y: UTPM.extract_jac_vec(y), F),
+             ('hessian', UTPM.init_hessian(x0), lambda y: UTPM.extract_hessian(N, y), f),
+             ('hess_vec', UTPM.init_hess_vec(x0, v), lambda y: UTPM.extract_hess_vec(N, y), f)]
+    for nm, X, ext, fun in seeds:
+        ref = np.array(ext(fun(UTPM(X.data.copy()))), dtype=float)
+        D0 = X.data.shape[0]
+        for extra in (1, 2):
+            for fillv in (0.0, 0.375):
+                data = np.concatenate([X.data, np.full((extra,) + X.data.shape[1:], fillv)])
+                out['evals'] += 1
+                out['keys'].append('driver|%s|+%d|%s' % (nm, extra, fillv))
+                case = {'kind': 'drivers', 'name': nm, 'extra': extra, 'fill': fillv}
+                try:
+                    got = np.array(ext(fun(UTPM(data))), dtype=float)
+                except Exception as ex:
+                    out['fails'].append({'sig': 'C12|driver %s|raises with more coefficients' % nm, 'case': case, 'detail': {'error': str(ex)[:160]}})
+                    continue
+                if got.shape != ref.shape or not np.all(np.abs(got - ref) <= 1e-12 * (1 + np.abs(ref))):
+                    out['fails'].append({'sig': 'C12|driver %s|answer changes when more coefficients are propagated' % nm, 'case': case,
+                                         'detail': {'D_seed': D0, 'D': D0 + extra}})
+    # expm at base points of larger norm: the approximation used must not depend on the number of coefficients
+    rng = np.random.default_rng(9)
+    for norm in (0.5, 2.0, 5.0, 9.0):
+        A0 = np.array([[0.3, -0.8, 0.2], [0.5, 0.1, -0.6], [-0.4, 0.7, 0.25]])
+        A0 = A0 * (norm / np.abs(A0).sum(axis=0).max())
+        for D in (2, 3, 4):
+            data = np.zeros((D, 1, 3, 3))
+            data[0, 0] = A0
+            data[1:] = np.round(rng.uniform(-1, 1, size=(D - 1, 1, 3, 3)) * 8) / 8.0
+            args = [UTPM(data)]
+            check_call('expm{norm=%s}' % norm, algopy.expm, args, D, out, {'kind': 'drivers', 'name': 'expm', 'norm': norm, 'D': D})
+            out['evals'] += 1
+            e1 = algopy.expm(UTPM(data[:1].copy())).data[0, 0]
+            e0 = algopy.expm(A0.copy())
+            if not np.all(np.abs(e1 - e0) <= 1e-12 * (1 + np.abs(e0))):
+                out['fails'].append({'sig': 'C12|expm|D=1 differs from the plain-array value', 'case': {'kind': 'drivers', 'name': 'expm', 'norm': norm}, 'detail': {}})
+
+
 def run_unit(u):
     out = {'evals': 0, 'keys': [], 'fails': [], 'samples': [], 'counters': {}, 'maxima': {}}
     if u['kind'] == 'entries':
@@ -341,6 +397,8 @@ def run_unit(u):
         run_cmp(u, out)
     elif u['kind'] == 'select':
         run_select(u, out)
+    elif u['kind'] == 'drivers':
+        run_drivers(u, out)
     elif u['kind'] == 'high':
         run_high(u, out)
     else:
@@ -360,6 +418,9 @@ def replay(case):
     elif case['kind'] == 'high':
         run_high({'tier': 'thorough', 'seed': case.get('seed', 0)}, out)
         out['fails'] = [f for f in out['fails'] if f['case']['name'] == case['name'] and f['case']['D'] == case['D']]
+    elif case['kind'] == 'drivers':
+        run_drivers({}, out)
+        out['fails'] = [f for f in out['fails'] if f['case'].get('name') == case.get('name')]
     elif case['kind'] == 'select':
         run_select({}, out)
         out['fails'] = [f for f in out['fails'] if all(f['case'].get(k) == case.get(k) for k in ('name', 'n', 'k', 'bad', 'D', 'where'))]
